@@ -3,6 +3,7 @@ import JominiModel.Proofs.BinDocText
 import JominiModel.Proofs.BinDocTextFlat
 import JominiModel.Proofs.DateLeaf
 import JominiModel.Proofs.BinDocTextBytes
+import JominiModel.Proofs.BinDocTextNestedBytes
 /-
 C10 — text and binary renderings of one document deserialize to the same value.
 Stated at the level of the two reference meanings `valueOfText` / `valueOfBin` of ONE logical
@@ -107,5 +108,20 @@ deserializer models on the rendered text bytes, and the binary parser / lexer mo
 deserializer models on the encoded binary bytes, all have the outcome `valueOfBin` of the one logical document.
 (The streaming text path carries the text reader slice's `bv_decide` certificates.) -/
 theorem C10_bytes_end_to_end : type_of% @BinDe.C10_bytes_end_to_end := @BinDe.C10_bytes_end_to_end
+
+/-- C10 on NESTED documents, reference level: under the recursive decidable condition `c10Root` (objects in objects,
+arrays of scalars, arrays of objects; structs, maps, sequences, `Option`s, scalar leaves) the text reference equals the
+binary reference. -/
+theorem C10_nested_spec : type_of% @BinDe.C10_nested_spec := @BinDe.C10_nested_spec
+
+/-- … and that value is what the three binary deserializer models return. -/
+theorem C10_nested_end_to_end : type_of% @BinDe.C10_nested_end_to_end := @BinDe.C10_nested_end_to_end
+
+/-- the two slices' TEXT references agree on nested documents. -/
+theorem C10_text_references_agree_nested : type_of% @BinDe.valueOfText_bridge_nested := @BinDe.valueOfText_bridge_nested
+
+/-- C10 capstone at BYTE level for NESTED documents: both text deserializer models on the rendered text bytes and the three
+binary deserializer models on the encoded binary bytes have the outcome `valueOfBin` of the one logical document. -/
+theorem C10_bytes_end_to_end_nested : type_of% @BinDe.C10_bytes_end_to_end_nested := @BinDe.C10_bytes_end_to_end_nested
 
 end Jomini.Props.C10
